@@ -381,6 +381,85 @@ pub fn check_reports(ctx: &Ctx, st: &Stats, reference: Option<(f64, f64)>, repor
     Ok(())
 }
 
+/// The same history through the real decode1090 binary (its own loop around decode_position: `-d 0` processes every
+/// line as it arrives, `--reference` is the receiver position; its reference update only reacts to airborne fixes
+/// below 1000 ft and the generated reports fly at 1400 ft). Oracle: every position it prints is within 25 m of the
+/// truth, and the set of positioned reports and the positions equal those of decode_positions.
+pub fn check_cli(ctx: &Ctx, bin: &str, h: &Hist) -> Check {
+    let reports = build(h);
+    let mut rep = replay_json(h, &reports);
+    rep["via"] = json!("decode1090");
+    check_cli_reports(ctx, bin, h.reference, &reports, &rep)
+}
+
+pub fn check_cli_reports(ctx: &Ctx, bin: &str, reference: Option<(f64, f64)>, reports: &[Report], rep: &Value) -> Check {
+    use std::io::Write;
+    ctx.eval();
+    let fail = |sig: &str, d: String| Failure::new(format!("c06:cli:{sig}"), d, rep.clone());
+    let dir = vcore::ev::out_root().join(".tmp");
+    let _ = std::fs::create_dir_all(&dir);
+    let path = dir.join(format!("c06-{}-{:?}.jsonl", std::process::id(), std::thread::current().id()));
+    {
+        let mut f = std::fs::File::create(&path).expect("scratch file");
+        for r in reports {
+            writeln!(f, "{}", json!({"timestamp": r.ts, "frame": hex::encode(frame_of(r))})).unwrap();
+        }
+    }
+    let mut cmd = std::process::Command::new(bin);
+    cmd.args(["-i", path.to_str().unwrap(), "-d", "0"]);
+    if let Some((la, lo)) = reference {
+        cmd.arg(format!("--reference={la:?},{lo:?}"));
+    }
+    let out = cmd.output();
+    let _ = std::fs::remove_file(&path);
+    let Ok(out) = out else {
+        eprintln!("INCONCLUSIVE: decode1090 could not be started");
+        std::process::exit(2);
+    };
+    if !out.status.success() {
+        return Err(fail("decode1090-failed", String::from_utf8_lossy(&out.stderr).chars().take(300).collect::<String>()));
+    }
+    let lines: Vec<Value> = String::from_utf8_lossy(&out.stdout).lines().filter_map(|l| serde_json::from_str::<Value>(l).ok()).collect();
+    if lines.len() != reports.len() {
+        return Err(fail("record-count", format!("{} lines for {} reports", lines.len(), reports.len())));
+    }
+    // the library on the same list
+    let refpos = reference.map(|(a, o)| Position { latitude: a, longitude: o });
+    let mut lib = to_timed(reports).map_err(|e| fail("frame-rejected", e))?;
+    catch(|| decode_positions(&mut lib, refpos, &None)).map_err(|p| fail("panic", p))?;
+    let mut npos = 0;
+    for ((r, v), t) in reports.iter().zip(lines.iter()).zip(lib.iter()) {
+        if v["frame"].as_str() != Some(hex::encode(frame_of(r)).as_str()) {
+            return Err(fail("order", format!("line carries frame {} where {} was fed", v["frame"], hex::encode(frame_of(r)))));
+        }
+        let got = match (v["latitude"].as_f64(), v["longitude"].as_f64()) {
+            (Some(a), Some(o)) => Some((a, o)),
+            (None, None) => None,
+            _ => return Err(fail("half-position", v.to_string())),
+        };
+        if let Some((la, lo)) = got {
+            npos += 1;
+            let d = haversine_m(r.lat, r.lon, la, lo);
+            if !(d <= TOL_M) {
+                return Err(fail(&format!("wrong-position:{}", if r.surface { "surface" } else { "airborne" }), format!("aircraft {:06x} at ts {:.3}: encoded from ({:.6}, {:.6}), decode1090 reports ({:.6}, {:.6}), {:.0} m off", r.icao, r.ts, r.lat, r.lon, la, lo, d)));
+            }
+        }
+        let want = position_of(t);
+        let same = match (got, want) {
+            (None, None) => true,
+            (Some(a), Some(b)) => (a.0 - b.0).abs() < 1e-9 && (a.1 - b.1).abs() < 1e-9,
+            _ => false,
+        };
+        if !same {
+            return Err(fail("differs-from-library", format!("aircraft {:06x} at ts {:.3}: decode1090 {:?}, decode_positions {:?}", r.icao, r.ts, got, want)));
+        }
+    }
+    if npos > 0 {
+        ctx.nontrivial(h64(&("cli", reports.iter().map(|r| (r.icao, r.ts.to_bits(), r.lat.to_bits(), r.odd, r.surface)).collect::<Vec<_>>())));
+    }
+    Ok(())
+}
+
 pub fn check_hist(ctx: &Ctx, st: &Stats, h: &Hist) -> Check {
     let reports = build(h);
     let rep = replay_json(h, &reports);
@@ -460,7 +539,7 @@ fn hist(surface: bool) -> BoxedStrategy<Hist> {
 }
 
 pub fn run(ctx: &Ctx) {
-    ctx.set_rule("histories: 1-4 aircraft, each a plan (start from the C04 strata incl. flights along the 87th parallel, bearing, speed in {0,140,450,700, uniform 0-700} kt, 1-6 segments of 1-29 reports every 0.4-0.6 s separated by gaps from {9.5, 9.99, 10.01, 10.5, 12, 20, 30, 60, 170, 179.9, 180.1, 190, 470, 600, 1000, 1700, 1790, 1860, 2000, 7200 s}, mostly alternating parity, loss levels 0/20/60/90 %, duplicate receptions +<=0.3 s, neighbours delivered in swapped order across any gap (truthful timestamps) or with exchanged timestamps when < 1.5 s apart, DF17 or DF18 carriers, addresses independent or from one family differing in a few bits / byte order); the airborne alias family 'gap just long enough to fly k latitude / m longitude zones (+-40 km) at <= 690 kt, then airborne again'; surface scenarios add landings, take-offs and the adversarial 'last airborne fix exactly k surface zones away, long gap, then surface' family, with a receiver reference within 36 NM of every surface site and |lat| <= 80. Frames from the independent encoder through Message::try_from and decode_positions. Oracle: every attached position within 25 m of the encoded one; per-aircraft outputs bit-identical with and without the other aircraft. Non-trivial = history with >= 1 positioned report and (a gap > 9 s or >= 2 aircraft); distinct by hash of the report list.");
+    ctx.set_rule("histories: 1-4 aircraft, each a plan (start from the C04 strata incl. flights along the 87th parallel, bearing, speed in {0,140,450,700, uniform 0-700} kt, 1-6 segments of 1-29 reports every 0.4-0.6 s separated by gaps from {9.5, 9.99, 10.01, 10.5, 12, 20, 30, 60, 170, 179.9, 180.1, 190, 470, 600, 1000, 1700, 1790, 1860, 2000, 7200 s}, mostly alternating parity, loss levels 0/20/60/90 %, duplicate receptions +<=0.3 s, neighbours delivered in swapped order across any gap (truthful timestamps) or with exchanged timestamps when < 1.5 s apart, DF17 or DF18 carriers, addresses independent or from one family differing in a few bits / byte order); the airborne alias family 'gap just long enough to fly k latitude / m longitude zones (+-40 km) at <= 690 kt, then airborne again'; surface scenarios add landings, take-offs and the adversarial 'last airborne fix exactly k surface zones away, long gap, then surface' family, with a receiver reference within 36 NM of every surface site and |lat| <= 80. Frames from the independent encoder through Message::try_from and decode_positions, and (320 / 6400 histories) as a JSONL file through the real decode1090 binary, whose own loop calls decode_position (positions within 25 m and equal to the library's). Oracle: every attached position within 25 m of the encoded one; per-aircraft outputs bit-identical with and without the other aircraft. Non-trivial = history with >= 1 positioned report and (a gap > 9 s or >= 2 aircraft); distinct by hash of the report list.");
     ctx.assume("speeds <= 700 kt along great circles (rhumb lines along the 87th parallel); receiver reference fixed (update_reference = None)");
     ctx.assume("surface aircraft are stationary during gaps, so the 40 NM premise of the property stays true");
     let st = Stats { reports: AtomicU64::new(0), positioned: AtomicU64::new(0), surface_positioned: AtomicU64::new(0) };
@@ -483,6 +562,22 @@ pub fn run(ctx: &Ctx) {
             check_hist(ctx, &st, h)
         });
     });
+    // the decode1090 binary has its own loop around decode_position (anchor crates/decode1090/src/main.rs)
+    match std::env::var("DECODE1090_BIN") {
+        Ok(bin) => {
+            let n_cli = ctx.tier.pick(320u32, 6_400u32);
+            (0..shards).into_par_iter().for_each(|s| {
+                run_prop(ctx, &format!("cli-{s}"), n_cli / shards, prop_oneof![hist(false), hist(true)], |h| {
+                    ctx.class("history through the real decode1090 binary");
+                    check_cli(ctx, &bin, h)
+                });
+            });
+        }
+        Err(_) => {
+            eprintln!("INCONCLUSIVE: DECODE1090_BIN is not set (run through ./check)");
+            std::process::exit(2);
+        }
+    }
     let (r, p, sp) = (st.reports.load(Ordering::Relaxed), st.positioned.load(Ordering::Relaxed), st.surface_positioned.load(Ordering::Relaxed));
     ctx.set_extra("reports_fed", json!(r));
     ctx.set_extra("reports_positioned", json!(p));
@@ -518,6 +613,14 @@ pub fn replay(ctx: &Ctx, v: &Value) {
         })
         .unwrap_or_default();
     let st = Stats { reports: AtomicU64::new(0), positioned: AtomicU64::new(0), surface_positioned: AtomicU64::new(0) };
+    if v["via"] == "decode1090" {
+        let Ok(bin) = std::env::var("DECODE1090_BIN") else {
+            eprintln!("INCONCLUSIVE: DECODE1090_BIN is not set (replay through ./check)");
+            std::process::exit(2);
+        };
+        ctx.judge(check_cli_reports(ctx, &bin, reference, &reports, v));
+        return;
+    }
     let r = check_reports(ctx, &st, reference, &reports, v);
     ctx.judge(r);
 }
